@@ -102,6 +102,8 @@ class Spec:
         self.bytes_mode = bytes_mode
         self.ignore_style = ignore_style    # rendering only
         self.parent_name = parent_name
+        self.overrides = ()                 # rendering only: rules marked `override`
+        self.ignore_prefix = 'Ig'           # rendering only: names of named ignore rules
 
     def astuple(self):
         return (tuple(self.rules), tuple(self.ignores), self.start, self.name, tuple(self.py),
